@@ -48,6 +48,65 @@ def canonicalise(tree):
     -- as its whole value (`return t`, `x = t`) or as a leading argument of its top-level call (`x = f(t, ...)`, nothing with
     an effect evaluated before it) -- is substituted into that statement, provided `t` is a plain local that no nested scope can
     see.  Positions of the consuming statement are kept."""
+    # `L = []` ; `for x in IT: [if c:] L.append(E)`   ->   `L = [E for x in IT [if c]]`   (x not used after the loop)
+    for fn in ast.walk(tree):
+        if not isinstance(fn, (ast.FunctionDef, ast.AsyncFunctionDef)):
+            continue
+        for node in ast.walk(fn):
+            for field in ("body", "orelse", "finalbody"):
+                block = getattr(node, field, None)
+                if not (isinstance(block, list) and len(block) >= 2 and isinstance(block[0], ast.stmt)):
+                    continue
+                i = 0
+                while i + 1 < len(block):
+                    a, lp = block[i], block[i + 1]
+                    ok = isinstance(a, ast.Assign) and len(a.targets) == 1 and isinstance(a.targets[0], ast.Name) \
+                        and isinstance(a.value, ast.List) and not a.value.elts and isinstance(lp, ast.For) and not lp.orelse and len(lp.body) == 1
+                    if ok:
+                        L = a.targets[0].id
+                        inner = lp.body[0]
+                        cond = None
+                        if isinstance(inner, ast.If) and not inner.orelse and len(inner.body) == 1:
+                            cond, inner = inner.test, inner.body[0]
+                        ok = isinstance(inner, ast.Expr) and isinstance(inner.value, ast.Call) and isinstance(inner.value.func, ast.Attribute) \
+                            and inner.value.func.attr == "append" and isinstance(inner.value.func.value, ast.Name) and inner.value.func.value.id == L \
+                            and len(inner.value.args) == 1 and not inner.value.keywords
+                        if ok:
+                            elt = inner.value.args[0]
+                            tnames = {x.id for x in ast.walk(lp.target) if isinstance(x, ast.Name)}
+                            reads_L = any(isinstance(x, ast.Name) and x.id == L for part in ([elt, lp.iter] + ([cond] if cond is not None else []))
+                                          for x in ast.walk(part))
+                            # the loop variables must be dead after the loop (a comprehension does not leak them)
+                            inside = {id(y) for y in ast.walk(lp)}
+                            later = any(isinstance(y, ast.Name) and y.id in tnames and isinstance(y.ctx, ast.Load) and id(y) not in inside
+                                        for y in ast.walk(fn))
+                            in_loop = False
+                            has_yield = any(isinstance(y, (ast.Yield, ast.YieldFrom, ast.Await, ast.NamedExpr)) for y in ast.walk(lp))
+                            if not reads_L and not later and not in_loop and not has_yield:
+                                comp = ast.ListComp(elt=elt, generators=[ast.comprehension(target=lp.target, iter=lp.iter, ifs=[cond] if cond is not None else [], is_async=0)])
+                                ast.copy_location(comp, lp)
+                                block[i:i + 2] = [ast.copy_location(ast.Assign(targets=[ast.Name(id=L, ctx=ast.Store())], value=comp, lineno=lp.lineno), lp)]
+                                continue
+                    i += 1
+    # `a, b = x, y` -> `a = x; b = y` when the targets are distinct plain names that none of the right-hand sides reads
+    for node in ast.walk(tree):
+        for field in ("body", "orelse", "finalbody"):
+            block = getattr(node, field, None)
+            if not (isinstance(block, list) and block and isinstance(block[0], ast.stmt)):
+                continue
+            i = 0
+            while i < len(block):
+                st = block[i]
+                if isinstance(st, ast.Assign) and len(st.targets) == 1 and isinstance(st.targets[0], ast.Tuple) and isinstance(st.value, ast.Tuple) \
+                        and len(st.targets[0].elts) == len(st.value.elts) and all(isinstance(t, ast.Name) for t in st.targets[0].elts):
+                    tnames = [t.id for t in st.targets[0].elts]
+                    reads = {x.id for v in st.value.elts for x in ast.walk(v) if isinstance(x, ast.Name)}
+                    if len(set(tnames)) == len(tnames) and not (set(tnames) & reads):
+                        block[i:i + 1] = [ast.copy_location(ast.Assign(targets=[ast.Name(id=t, ctx=ast.Store())], value=v, lineno=st.lineno), st)
+                                          for t, v in zip(tnames, st.value.elts)]
+                        i += len(tnames)
+                        continue
+                i += 1
     # `T = A if c else B` -> `if c: T = A else: T = B`;  `return A if c else B` -> `if c: return A else: return B`
     for node in ast.walk(tree):
         for field in ("body", "orelse", "finalbody"):
